@@ -1,10 +1,68 @@
-(* C06 — under any schedule of pulls, replicas converge (abstract stores; linear join merges). *)
-From MST Require Import Base TreeM Diff Spec TreeInv DiffTrees TreeRL DiffTop Sync SyncTop SyncRounds Sync6.
+(* C06 — under any schedule of writes and pulls, replicas converge once writes stop.
+   Concrete replicas (SyncModel.v): each keeps its tree up to date incrementally (upsert on every write and on
+   every fetched pair, hash only when it serialises; page-hash caches carried from one step into the next),
+   source side snapshotted. Events: Write r k x | HashEv r | Pull dst src, any interleaving, any number of
+   replicas. Merge: a linear join (max of a total order: selective, commutative, associative). *)
+From MST Require Import Base TreeM Diff Spec TreeHash TreeInv DiffTrees TreeRL DiffTop Sync SyncTop SyncRounds Sync6
+  SyncModel SyncLimit SyncFinal.
 
-(* PARTIAL (see DESIGN.md section 9): proved over stores whose trees are rebuilt by [ser] at every pull,
-   for linear joins (max of a total order), any number of replicas, any continuation made of blocks that
-   each contain every ordered pair: after [M S] blocks all stores are equal. The refinement from
-   incrementally maintained trees (caches carried across pulls) to this abstract system is C01/C02. *)
+(* refinement: every schedule runs without panic; the stores evolve as in the store-level system [a_run]; and
+   every replica's incremental tree is, up to caches, the tree freshly built from its store, with the same
+   root hash and the same serialised page ranges (so stale-cache effects cannot exist at any step) *)
+Theorem C06_refinement :
+  forall (digest V : Type) (H : list (tok digest V) -> digest) (lvl_of : N -> N),
+  (forall k : N, lvl_of k < 255) ->
+  forall deqb : digest -> digest -> bool, (forall a b : digest, deqb a b = true <-> a = b) ->
+  forall (Val : Type) (vh : Val -> V) (merge : Val -> Val -> Val) (n : nat) (es : list (event Val)),
+  exists rs : list (replica digest V Val),
+    ev_run digest V H lvl_of deqb Val vh merge (fresh digest V Val n) es = Ok rs /\
+    length rs = n /\
+    a_run digest V H lvl_of deqb Val vh merge (repeat [] n) es = Ok (map (r_store digest V Val) rs) /\
+    Forall (fun rp : replica digest V Val =>
+      store_ok Val (r_store digest V Val rp) /\
+      exists t0 : mst digest V,
+        run digest V H lvl_of (ops_of V Val vh (r_store digest V Val rp)) = Ok t0 /\
+        strip digest V (root digest V (r_tree digest V Val rp)) = strip digest V (root digest V t0) /\
+        snd (mst_root_hash digest V H (r_tree digest V Val rp)) = snd (mst_root_hash digest V H t0) /\
+        tree_ranges digest V H (r_tree digest V Val rp) = tree_ranges digest V H t0) rs.
+Proof. exact SyncModel.C06_refinement. Qed.
+Print Assumptions C06_refinement.
+
+(* convergence and limit: after ANY schedule es from n empty replicas, EVERY continuation consisting of at
+   least M blocks, each containing every ordered pair Pull i j (in any order, with anything else in between),
+   succeeds and ends with every replica holding exactly [written n es] - the per-key join of everything ever
+   written to an existing replica: nothing written is lost - and all replicas reporting the same root hash.
+   M is computed from the stores at the moment writes stop. *)
+Theorem C06_limit :
+  forall (digest V : Type) (H : list (tok digest V) -> digest) (lvl_of : N -> N),
+  (forall k : N, lvl_of k < 255) ->
+  forall deqb : digest -> digest -> bool, (forall a b : digest, deqb a b = true <-> a = b) ->
+  (forall a b : list (tok digest V), H a = H b -> a = b) ->
+  forall (Val : Type) (val_dec : forall a b : Val, {a = b} + {a <> b}) (vh : Val -> V),
+  (forall a b : Val, vh a = vh b -> a = b) ->
+  forall merge : Val -> Val -> Val,
+  (forall o x : Val, merge o x = o \/ merge o x = x) ->
+  (forall o x : Val, merge o x = merge x o) ->
+  (forall a b c : Val, merge a (merge b c) = merge (merge a b) c) ->
+  forall (n : nat) (es : list (event Val)),
+  exists rs0 : list (replica digest V Val),
+    ev_run digest V H lvl_of deqb Val vh merge (fresh digest V Val n) es = Ok rs0 /\
+    length rs0 = n /\
+    (let S := map (r_store digest V Val) rs0 in
+     forall blocks : list (list (nat * nat)),
+     Forall (all_pairs n) blocks ->
+     (M Val val_dec merge (universe Val S) S S <= length blocks)%nat ->
+     exists rs : list (replica digest V Val),
+       ev_run digest V H lvl_of deqb Val vh merge rs0 (pulls Val (concat blocks)) = Ok rs /\
+       length rs = n /\
+       (forall a : replica digest V Val, In a rs -> r_store digest V Val a = written Val merge n es) /\
+       (forall a b : replica digest V Val, In a rs -> In b rs ->
+          snd (mst_root_hash digest V H (r_tree digest V Val a)) =
+          snd (mst_root_hash digest V H (r_tree digest V Val b)))).
+Proof. exact SyncFinal.C06_limit. Qed.
+Print Assumptions C06_limit.
+
+(* store-level core (kept pinned): M strictly decreases on every changing pull, blocks force a change *)
 Theorem C06_converges :
   forall (digest V : Type) (H : list (tok digest V) -> digest) (lvl_of : N -> N),
   (forall k : N, lvl_of k < 255) ->
